@@ -123,11 +123,11 @@ pub const SPELLINGS: [(&str, Unit); 25] = [
     ("nanosecond", Unit::Nanosecond),
     ("nanoseconds", Unit::Nanosecond),
 ];
-pub const VALUES: [&str; 30] = [
+pub const VALUES: [&str; 36] = [
     "0", "1", "1.5", "10.598", "0.000001", "59", "60", "999", "1000", "36525", "2.25", "0.5",
     // decimals whose nearest double lies just below them (4.1 = 4.0999999999999996...), and whole counts whose
     // product with the unit needs more than 53 bits
-    "4.1", "8.2", "32.3", "64.1", "2.3", "0.57", "1.13", "0.513988343", "0.1", "0.7", "9007199254740993", "123456789012345678", "72069679697923", "576870618973", "4612397135", "307446615", "20497649", "3652425",
+    "4.1", "8.2", "32.3", "64.1", "2.3", "0.57", "1.13", "0.513988343", "0.1", "0.7", "0.6666666666666666666667", "0.3333333333333333333334", "0.0166666666666666666667", "1.6666666666666666666667", "0.9999999999999999999999999999999999999999", "0.00000000000001157407407407407407408", "9007199254740993", "123456789012345678", "72069679697923", "576870618973", "4612397135", "307446615", "20497649", "3652425",
 ];
 
 /// the value a decimal text denotes, in nanoseconds of the unit, truncated toward zero: exact integer arithmetic
@@ -137,8 +137,13 @@ pub fn decimal_ns(text: &str, unit_ns: i128) -> i128 {
         None => (text, ""),
     };
     let w: i128 = if whole.is_empty() { 0 } else { whole.parse().unwrap() };
-    let f: i128 = if frac.is_empty() { 0 } else { frac.parse().unwrap() };
-    w * unit_ns + f * unit_ns / 10i128.pow(frac.len() as u32)
+    // floor(F * unit / 10^k) for a fraction of any length: schoolbook multiplication from the least significant digit,
+    // keeping only the carry (the digits of the product below 10^k are exactly the ones discarded)
+    let mut carry: i128 = 0;
+    for b in frac.bytes().rev() {
+        carry = ((b - b'0') as i128 * unit_ns + carry) / 10;
+    }
+    w * unit_ns + carry
 }
 
 /// one spelling: "<value> <unit>" with an optional leading '-'
